@@ -62,6 +62,7 @@ def wireJudge (caseLine implLine : String) : String :=
     match toks implLine with
     | a :: b :: _ =>
       if a = "1" ∧ b = "1" then "ok"
+      else if kind = "PF" then (if a ≠ "1" then "bad pipelined-request-never-completed" else "bad pipeline-responses-out-of-order-or-mispaired")
       else if kind = "PL" then "bad pipeline-responses-out-of-order-or-mispaired"
       else if kind = "CF" then (if a ≠ "1" then "bad failed-exchange-did-not-yield-an-error" else "bad exchange-after-a-failed-one-got-a-foreign-response")
       else if a ≠ "1" then "bad handler-did-not-see-the-request-as-sent"
